@@ -180,28 +180,31 @@ func (rw *Rewriter) Visit(node sql.Node) (w sql.Visitor, n sql.Node, err error) 
 			if len(n.Args) == 0 {
 				// An omitted time value means 'now'.
 				n.Args = append(n.Args, rw.pinnedNow())
+				rw.modified = true
 			} else if isNow(n.Args[0]) {
 				n.Args[0] = rw.pinnedNow()
+				rw.modified = true
 			}
-			rw.modified = true
 		} else if rw.RewriteTime && len(n.Args) > 0 && !n.Star.IsValid() &&
 			strings.EqualFold(n.Name.Name, "strftime") {
 			if len(n.Args) == 1 {
 				// A format without a time value means 'now'.
 				n.Args = append(n.Args, rw.pinnedNow())
+				rw.modified = true
 			} else if isNow(n.Args[1]) {
 				n.Args[1] = rw.pinnedNow()
+				rw.modified = true
 			}
-			rw.modified = true
 		} else if rw.RewriteTime && len(n.Args) > 1 &&
 			strings.EqualFold(n.Name.Name, "timediff") {
 			if isNow(n.Args[0]) {
 				n.Args[0] = rw.pinnedNow()
+				rw.modified = true
 			}
 			if isNow(n.Args[1]) {
 				n.Args[1] = rw.pinnedNow()
+				rw.modified = true
 			}
-			rw.modified = true
 		} else if !rw.orderedBy && rw.RewriteRand && strings.EqualFold(n.Name.Name, "random") {
 			retNode = &sql.NumberLit{Value: strconv.Itoa(int(rw.randFn()))}
 			rw.modified = true
